@@ -31,6 +31,9 @@ type ChiSquared struct {
 
 // CDF computes the value of the cumulative density function at x.
 func (c ChiSquared) CDF(x float64) float64 {
+	if x < 0 {
+		return 0
+	}
 	return mathext.GammaIncReg(c.K/2, x/2)
 }
 
